@@ -8,8 +8,9 @@ function (S4); executor lifetime (S5); list-preserving result (S6).
 The rules look at the pairing / ordering, not at the statement shape: the (index, file) pairs may be produced by a `for`
 statement that stores map[future] = index or by a dict comprehension {submit(...): index for index, file in enumerate(files)};
 the sequential pass may be an append loop or a list comprehension; a value (the number of files, the result of a future) may
-be bound to a local first.  S5 and S6 are decided per path (c06.sym_paths): which object receives .submit and whether it is
-among the open context managers; which list object each `return` hands to SignatureList - so guard clauses with early
+be bound to a local first; the futures may be collected in a list in file order first and indexed by their position
+in that list (enumerate of the list).  S5 and S6 are decided per path (c06.sym_paths): which object receives .submit and whether it is
+among the open context managers (with items, or handed to enter_context() of an ExitStack that is open there); which list object each `return` hands to SignatureList - so guard clauses with early
 return, chained assignments, helper expansion and conditional expressions all reduce to the same question.
 """
 import ast
@@ -105,6 +106,73 @@ def check_no_swallow(ctx):
     rep.floor('S7', 'context managers of the package', n, 4)
 
 
+def _staged_submission(rep, fi, fn, pm, comp, sub_stmt, files):
+    """futures = [submit(.., f) for f in files]; index map built from enumerate(futures).  Returns what the S1 obligations need."""
+    g = comp.generators
+    rep.require(len(g) == 1 and not g[0].is_async, f'{FN}: submit inside a list comprehension with several / async generators')
+    rep.require(isinstance(sub_stmt, ast.Assign) and sub_stmt.value is comp and len(sub_stmt.targets) == 1 and isinstance(sub_stmt.targets[0], ast.Name),
+                f'{FN}: the list of futures is not bound to a local: {u(sub_stmt)[:80]}')
+    lst = sub_stmt.targets[0].id
+    out = dict(listname=lst, found=u(comp), iter=g[0].iter, ivar=None, fvar=None)
+    # one task per file, in the order of files: plain `for f in files` (or `for _, f in enumerate(files)`), no filter
+    it, tgt = g[0].iter, g[0].target
+    if isinstance(it, ast.Call) and u(it.func) == 'enumerate' and len(it.args) == 1 and not it.keywords and isinstance(tgt, ast.Tuple) and len(tgt.elts) == 2 and all(isinstance(e, ast.Name) for e in tgt.elts):
+        it, tgt = it.args[0], tgt.elts[1]
+    out['ok'] = u(it) == files and isinstance(tgt, ast.Name) and not g[0].ifs and len(assigns_to(fn, lst)) == 1
+    out['fvar'] = tgt.id if isinstance(tgt, ast.Name) else None
+    if not out['ok']:
+        return out
+    # every other use of the list: the pairing construct, or as_completed(<list>)
+    uses = [n for n in ast.walk(fn) if isinstance(n, ast.Name) and n.id == lst and isinstance(n.ctx, ast.Load)]
+    pairs, other = [], []
+    for n in uses:
+        par = pm.get(n)
+        if isinstance(par, ast.Call) and u(par.func) == 'enumerate' and par.args == [n] and not par.keywords:
+            pairs.append(par)
+        elif isinstance(par, ast.Call) and ((callee(par) or '').endswith('as_completed') or u(par.func) == 'len') and par.args == [n] and not par.keywords:
+            pass            # reads that neither edit nor re-order the list
+        elif isinstance(par, ast.Attribute) and par.attr in ('sort', 'reverse', 'pop', 'insert', 'remove', 'append', 'extend', 'clear') and isinstance(pm.get(par), ast.Call):
+            # the list is re-ordered / edited after the submissions: position k no longer holds the task of files[k]
+            out['ok'], out['found'] = False, f'{u(comp)}; {u(pm.get(par))}'
+            return out
+        else:
+            other.append(u(par)[:60])
+    rep.require(not other and len(pairs) == 1, f'{FN}: the list of futures {lst} is used by a construct outside the vocabulary (enumerate({lst}) once, as_completed({lst})): {other or len(pairs)}')
+    en = pairs[0]
+    holder = pm.get(en)
+    out['rebinds'] = []
+    if isinstance(holder, ast.comprehension):
+        dc = pm.get(holder)
+        rep.require(isinstance(dc, ast.DictComp) and len(dc.generators) == 1 and not holder.is_async, f'{FN}: enumerate({lst}) drives {type(dc).__name__}, not a dict comprehension')
+        st = pm.get(dc)
+        rep.require(isinstance(st, ast.Assign) and st.value is dc and len(st.targets) == 1 and isinstance(st.targets[0], ast.Name), f'{FN}: the future->index comprehension is not bound to a local: {u(st)[:80]}')
+        t = holder.target
+        shape = isinstance(t, ast.Tuple) and len(t.elts) == 2 and all(isinstance(e, ast.Name) for e in t.elts)
+        out['pair_ok'] = shape and u(dc.key) == t.elts[1].id and u(dc.value) == t.elts[0].id and not holder.ifs
+        out['pair_found'], out['pair_site'], out['mapname'] = u(dc), st, st.targets[0].id
+        out['ivar'] = t.elts[0].id if shape else None
+        mdef = [x for x in assigns_to(fn, out['mapname']) if x is not st]
+        out['init_ok'], out['init_found'] = not mdef, [u(x) for x in mdef]
+        out['rebinds'] = [u(x) for x in ast.walk(dc) if isinstance(x, ast.NamedExpr)]
+    elif isinstance(holder, ast.For) and holder.iter is en:
+        t = holder.target
+        shape = isinstance(t, ast.Tuple) and len(t.elts) == 2 and all(isinstance(e, ast.Name) for e in t.elts)
+        rep.require(shape, f'{FN}: the loop over enumerate({lst}) does not unpack (index, future)')
+        iv, fv = t.elts[0].id, t.elts[1].id
+        stores = [x for x in stmts_in(holder.body) if isinstance(x, ast.Assign) and len(x.targets) == 1 and isinstance(x.targets[0], ast.Subscript) and u(x.targets[0].slice) == fv]
+        rep.require(len(stores) == 1, f'{FN}: expected one `map[future] = index` store in the loop over enumerate({lst}), found {len(stores)}')
+        ms = stores[0]
+        out['pair_ok'] = ms in holder.body and u(ms.value) == iv and not holder.orelse and not any(isinstance(x, (ast.Break, ast.Continue, ast.Return)) for x in stmts_in(holder.body))
+        out['pair_found'], out['pair_site'], out['mapname'], out['ivar'] = f'for {u(t)} in {u(en)}: {u(ms)}', ms, u(ms.targets[0].value), iv
+        out['rebinds'] = [u(x) for x in stmts_in(holder.body) if x is not ms and any(isinstance(n, ast.Name) and isinstance(n.ctx, ast.Store) and n.id in (iv, fv) for n in ast.walk(x))]
+        mdef = assigns_to(fn, out['mapname'])
+        out['init_ok'] = len(mdef) == 1 and u(def_value(mdef[0])) in ('dict()', '{}')
+        out['init_found'] = [u(x) for x in mdef]
+    else:
+        rep.require(False, f'{FN}: enumerate({lst}) is used by a construct outside the vocabulary: {u(holder)[:80]}')
+    return out
+
+
 def core(ctx):
     check_no_swallow(ctx)
     rep, m = ctx.rep, ctx.model
@@ -131,27 +199,46 @@ def core(ctx):
     drive = pm.get(sub)
     while drive is not None and not isinstance(drive, (ast.For, ast.DictComp, ast.ListComp, ast.SetComp, ast.GeneratorExp, ast.Lambda, ast.stmt)):
         drive = pm.get(drive)
+    staged = None
     if isinstance(drive, ast.DictComp):
         rep.require(len(drive.generators) == 1 and not drive.generators[0].is_async, f'{FN}: submit inside a dict comprehension with several / async generators')
         sub_loop = None
         sub_scope = sub_stmt
         it, tgt = drive.generators[0].iter, drive.generators[0].target
+    elif isinstance(drive, ast.ListComp) and drive.elt is sub:
+        # two stages: futures = [submit(.., f) for f in files] keeps the order of files (position k holds the task of files[k]);
+        # the index of a future is then its position in that list: {future: k for k, future in enumerate(futures)}
+        staged = _staged_submission(rep, fi, fn, pm, drive, sub_stmt, files)
+        sub_loop = None
+        sub_scope = sub_stmt
     else:
         sub_loop = next((o for (_, _, o) in reversed(bp) if isinstance(o, ast.For)), None)
         rep.require(sub_loop is not None and drive is sub_stmt, f'{FN}: submit is neither inside a for loop nor the key of a dict comprehension ({type(drive).__name__})')
         sub_scope = sub_loop
         it, tgt = sub_loop.iter, sub_loop.target
-    en_ok = isinstance(it, ast.Call) and u(it.func) == 'enumerate' and [u(a) for a in it.args] == [files] and not it.keywords \
-        and isinstance(tgt, ast.Tuple) and len(tgt.elts) == 2 and all(isinstance(e, ast.Name) for e in tgt.elts)
-    rep.add('S1', fi.site(sub_scope), 'tasks are submitted in one pass over enumerate(files)', en_ok, expected=f'for i, file in enumerate({files})', found=u(it),
-            stmt='submit loop')
-    rep.require(en_ok, f'{FN}: submissions are not driven by `for i, f in enumerate({files})`')
-    ivar, fvar = (e.id for e in tgt.elts)
+    if staged is not None:
+        en_ok, it, ivar, fvar = staged['ok'], staged['iter'], staged['ivar'], staged['fvar']
+        rep.add('S1', fi.site(sub_scope), 'tasks are submitted in one pass over enumerate(files)', en_ok, expected=f'[submit(.., f) for f in {files}] indexed by position', found=staged['found'], stmt='submit loop')
+        rep.require(en_ok, f'{FN}: submissions are not driven by one pass over {files}: {staged["found"]}')
+    else:
+        en_ok = isinstance(it, ast.Call) and u(it.func) == 'enumerate' and [u(a) for a in it.args] == [files] and not it.keywords \
+            and isinstance(tgt, ast.Tuple) and len(tgt.elts) == 2 and all(isinstance(e, ast.Name) for e in tgt.elts)
+        rep.add('S1', fi.site(sub_scope), 'tasks are submitted in one pass over enumerate(files)', en_ok, expected=f'for i, file in enumerate({files})', found=u(it),
+                stmt='submit loop')
+        rep.require(en_ok, f'{FN}: submissions are not driven by `for i, f in enumerate({files})`')
+        ivar, fvar = (e.id for e in tgt.elts)
     wk = m.resolve(fi.module, sub.args[0]) if sub.args else None
     rep.add('S4', fi.site(sub), 'the worker is the single-file function with the same parameters and this file',
             wk == 'gambit.sigs.calc.calc_file_signature' and [u(a) for a in sub.args[1:]] == [kspec, fvar] and not sub.keywords,
             expected=f'submit(calc_file_signature, {kspec}, {fvar})', found=u(sub), stmt='submit call')
-    if sub_loop is None:
+    if staged is not None:
+        fut = None
+        mapname = staged['mapname']
+        rep.add('S1', fi.site(staged['pair_site']), 'the future is recorded unconditionally in the iteration that submitted it, with that iteration\'s index',
+                staged['pair_ok'], expected=f'{{future: k for k, future in enumerate({staged["listname"]})}}', found=staged['pair_found'], stmt='map store')
+        rep.add('S1', fi.site(sub_stmt), 'neither the index nor the future variable is rebound inside the submit loop', not staged['rebinds'], expected='none', found=staged['rebinds'], stmt='submit loop rebinding')
+        rep.add('S1', fi.site(staged['pair_site']), 'the future->index map starts empty', staged['init_ok'], expected='built from the list of futures only', found=staged['init_found'], stmt='map init')
+    elif sub_loop is None:
         # comprehension form: the pairing future -> index is the key/value pair itself; the map is born complete
         rep.require(drive.key is sub, f'{FN}: the future is not the key of the comprehension that submits it: {u(drive)[:80]}')
         rep.require(isinstance(sub_stmt, ast.Assign) and sub_stmt.value is drive and len(sub_stmt.targets) == 1 and isinstance(sub_stmt.targets[0], ast.Name),
@@ -197,7 +284,7 @@ def core(ctx):
     cloop = pm.get(ac)
     rep.require(isinstance(cloop, ast.For) and cloop.iter is ac and isinstance(cloop.target, ast.Name), f'{FN}: as_completed is not the iterable of a for loop')
     cf = cloop.target.id
-    rep.add('S2', fi.site(cloop), 'the completion loop waits on exactly the recorded futures', [u(a) for a in ac.args] in ([mapname], [f'{mapname}.keys()'], [f'list({mapname})']),
+    rep.add('S2', fi.site(cloop), 'the completion loop waits on exactly the recorded futures', [u(a) for a in ac.args] in ([mapname], [f'{mapname}.keys()'], [f'list({mapname})']) + (([staged['listname']],) if staged is not None else ()),
             expected=f'as_completed({mapname})', found=u(ac), stmt='as_completed')
     results = [c for c in calls_in(cloop) if callee_attr(c) == 'result' and u(c.func.value) == cf]
     rep.floor('S2', '.result() calls in the completion loop', len(results), 1)
@@ -333,8 +420,25 @@ def core(ctx):
         items = [(w, x) for w in ev.withs for x in p.event_of(w, 'enter').expr]
         at = p.atoms()
         held = [w for (w, x) in items if u(x) == recv.id]
+        before = p.events[:p.events.index(ev)]
+        # an ExitStack that is open here manages whatever was handed to its enter_context() before the submissions
+        stacks = {e.sym: e.stmt for e in before if e.kind == 'def' and isinstance(e.stmt, ast.With) and any(e.stmt is w for w in ev.withs)
+                  and isinstance(e.expr, ast.Call) and e.expr.args and isinstance(e.expr.args[0], ast.Call) and (m.resolve_call(fi, e.expr.args[0]) or '') == 'contextlib.ExitStack'}
+        for e in before:
+            c = e.expr if e.kind == 'call' else (p.defs.get(e.sym) if e.kind == 'def' else None)
+            if isinstance(c, ast.Call) and isinstance(c.func, ast.Attribute) and isinstance(c.func.value, ast.Name) and c.func.value.id in stacks and any(u(a) == recv.id for a in c.args):
+                rep.require(c.func.attr == 'enter_context' and len(c.args) == 1 and not c.keywords, f'{FN}: the executor is handed to the exit stack by a construct outside the vocabulary: {u(c)}')
+                held.append(stacks[c.func.value.id])
+                items.append((stacks[c.func.value.id], c))
+        # a context manager built from the executor by something else (closing(executor), a helper ...) is not interpreted;
+        # neither is an explicit shutdown() in place of a with
+        wrapped = [u(p.resolve(x)) for (_, x) in items if u(x) != recv.id and not (isinstance(x, ast.Call) and isinstance(x.func, ast.Attribute) and x.func.attr == 'enter_context')
+                   and any(isinstance(n, ast.Name) and n.id == recv.id for n in ast.walk(p.resolve(x)))]
+        shut = [u(e.expr) for e in p.events if e.kind == 'call' and isinstance(e.expr, ast.Call) and u(e.expr.func) == f'{recv.id}.shutdown']
+        rep.require(not wrapped, f'{FN}: the executor reaches a with statement through a construct outside the vocabulary: {wrapped}')
         if recv.id in p.defs:
             n_own += 1
+            rep.require(held or not shut, f'{FN}: an executor created here is shut down by an explicit call instead of a with statement: {shut}')
             rep.add('S5', fi.site(held[0] if held else sub_scope), 'only an executor created here becomes the with-context (and is shut down)', bool(held),
                     expected=f'with <the executor created under {sorted(a for a in at if "concurrency" in a[1:] and a[0] == "eq")}>', found=[u(x) for _, x in items], stmt='own executor context')
             ctor = p.defs[recv.id]
@@ -346,7 +450,7 @@ def core(ctx):
             rep.require(recv.id == exn, f'{FN}: .submit is called on {recv.id}, which is neither the executor parameter nor an executor created here')
             rep.require(('isnot', 'None', exn) in at, f'{FN}: the concurrent branch is reachable with executor None ({sorted(at)})')
             n_foreign += 1
-            rep.add('S5', fi.site(held[0] if held else sub_scope), 'a caller-supplied executor is never the with-context (left open for the caller)', not held,
+            rep.add('S5', fi.site(held[0] if held else sub_scope), 'a caller-supplied executor is never the with-context (left open for the caller)', not held and not shut,
                     expected=f'no `with {exn}` under `{exn} is not None`', found=[u(x) for _, x in items], stmt='foreign executor context')
     rep.floor('S5', 'paths that submit to an executor created here', n_own, 1)
     rep.floor('S5', 'paths that submit to the caller\'s executor', n_foreign, 1)
@@ -416,6 +520,20 @@ _BODY_OLD = (_SEQ_OLD + "\n\telse:\n\t\tsigs = [None] * len(files)\n" + _SUBMIT_
              "\t\t\t\tsigs[i] = future.result()\n\t\t\t\tmeter.increment()\n\n\t\tassert all(sig is not None for sig in sigs)\n")
 _BODY_GUARD = (_SEQ_OLD + "\n\t\treturn SignatureList(%s, kspec)\n\n\tsigs = [None] * len(files)\n" + _SUBMIT_OLD.replace("\n\t\t", "\n\t").replace("\t\tfuture_to_index = dict()", "\tfuture_to_index = dict()")
                + "\n\t\tfor future in as_completed(future_to_index):\n\t\t\ti = future_to_index[future]\n\t\t\tsigs[i] = future.result()\n\t\t\tmeter.increment()\n\n\tassert all(sig is not None for sig in sigs)\n")
+_STAGED = ("\t\twith executor_context, get_progress(progress, len(files)) as meter:\n\t\t\tfutures = [executor.submit(calc_file_signature, kspec, %s) for file in %s]\n%s"
+           "\t\t\tfuture_to_index = {future: %s for i, future in enumerate(futures)}\n")
+_CTX_OLD = "\n\t\texecutor_context = executor\n\n\telse:\n\t\texecutor_context = nullcontext()\n"
+_WITH_OLD = ("\t\twith executor_context, get_progress(progress, len(files)) as meter:\n\t\t\tfor i, file in enumerate(files):\n\t\t\t\tfuture = executor.submit(calc_file_signature, kspec, file)\n"
+             "\t\t\t\tfuture_to_index[future] = i\n\n\t\t\tfor future in as_completed(future_to_index):\n\t\t\t\ti = future_to_index[future]\n\t\t\t\tsigs[i] = future.result()\n\t\t\t\tmeter.increment()\n")
+
+
+def _stack(flag, action):
+    inner = "".join(("\t" + ln if ln.strip() else ln) for ln in _WITH_OLD.replace("with executor_context, get_progress", "with get_progress").splitlines(True))
+    return ((_C, "from contextlib import nullcontext\n", "from contextlib import ExitStack, nullcontext\n"),
+            (_C, "\t.calc_file_signature\n\t\"\"\"\n\tif executor is None:\n\t\tif concurrency", "\t.calc_file_signature\n\t\"\"\"\n\towns = executor is None\n\tif owns:\n\t\tif concurrency"),
+            (_C, _WITH_OLD, "\t\twith ExitStack() as cleanup:\n\t\t\tif %s:\n\t\t\t\t%s\n\n" % (flag, action) + inner))
+
+
 VARIANTS = [
     V('ClosingIterator.__exit__ returns True (exceptions of a failing file swallowed)', 'B', 'src/gambit/util/io.py', "\tdef __exit__(self, *args):\n\t\tself.close()\n", "\tdef __exit__(self, *args):\n\t\tself.close()\n\t\treturn True\n", 'S7'),
     V('close() reports whether the stream was open and __exit__ returns it (seeded C13c)', 'B', 'src/gambit/util/io.py', "\t\tself.fobj.close()\n\n\t@property\n\tdef closed(self) -> bool:",
@@ -459,6 +577,21 @@ VARIANTS = [
       also=[(_C, "\t\twith executor_context, get_progress", "\t\twith (executor if own else nullcontext()), get_progress")]),
     V('twin: ownership flag inverted (caller executor shut down, own executor leaked)', 'B', _C, "\t\texecutor_context = executor\n\n\telse:\n\t\texecutor_context = nullcontext()\n", "\t\town = False\n\n\telse:\n\t\town = True\n", 'S5',
       also=[(_C, "\t\twith executor_context, get_progress", "\t\twith (executor if own else nullcontext()), get_progress")]),
+    # submissions collected in a list first, the index taken from the position in that list
+    V('E: list of futures in file order, index map from enumerate of that list', 'E', _C, _SUBMIT_OLD, _STAGED % ('file', 'files', '', 'i')),
+    V('E: list of futures, index map filled by a loop over enumerate of that list', 'E', _C, _SUBMIT_OLD,
+      "\t\tfuture_to_index = dict()\n\n\t\twith executor_context, get_progress(progress, len(files)) as meter:\n\t\t\tfutures = [executor.submit(calc_file_signature, kspec, file) for file in files]\n"
+      "\t\t\tfor i, future in enumerate(futures):\n\t\t\t\tfuture_to_index[future] = i\n"),
+    V('twin: futures listed in sorted file order', 'B', _C, _SUBMIT_OLD, _STAGED % ('file', 'sorted(files)', '', 'i'), 'S1'),
+    V('twin: futures listed for some files only', 'B', _C, _SUBMIT_OLD, _STAGED % ('file', 'files if file.path.exists()', '', 'i'), 'S1'),
+    V('twin: list of futures reversed before the positions are taken', 'B', _C, _SUBMIT_OLD, _STAGED % ('file', 'files', '\t\t\tfutures.reverse()\n', 'i'), 'S1'),
+    V('twin: position map counts from the end', 'B', _C, _SUBMIT_OLD, _STAGED % ('file', 'files', '', 'len(futures) - 1 - i'), 'S1'),
+    V('twin: every listed task gets the last file', 'B', _C, _SUBMIT_OLD, _STAGED % ('files[-1]', 'files', '', 'i'), 'S4'),
+    # the executor handed to an ExitStack under an ownership flag instead of being one of two with-contexts
+    V('E: own executor entered into an ExitStack under an ownership flag', 'E', _C, _CTX_OLD, "", also=_stack('owns', 'cleanup.enter_context(executor)')),
+    V('twin: ownership flag inverted on the ExitStack (caller executor shut down, own one leaked)', 'B', _C, _CTX_OLD, "", 'S5', also=_stack('not owns', 'cleanup.enter_context(executor)')),
+    V('twin: ExitStack opened but the own executor never entered', 'B', _C, _CTX_OLD, "", 'S5', also=_stack('owns', 'pass')),
+    V('twin: every executor entered into the ExitStack', 'B', _C, _CTX_OLD, "", 'S5', also=_stack('True', 'cleanup.enter_context(executor)')),
     V('E: result bound to a local before it is stored', 'E', _C, "\t\t\t\tsigs[i] = future.result()\n", "\t\t\t\tsig = future.result()\n\t\t\t\tsigs[i] = sig\n"),
     V('twin: result local stored at the completion count', 'B', _C, "\t\t\t\ti = future_to_index[future]\n\t\t\t\tsigs[i] = future.result()\n", "\t\t\t\tsig = future.result()\n\t\t\t\ti = meter.n\n\t\t\t\tsigs[i] = sig\n", 'S1'),
     V('twin: result local stored only when truthy', 'B', _C, "\t\t\t\tsigs[i] = future.result()\n", "\t\t\t\tsig = future.result()\n\t\t\t\tif len(sig):\n\t\t\t\t\tsigs[i] = sig\n", 'S2'),
